@@ -17,13 +17,14 @@ RULE = (
     "(10-byte slot||key) with low byte 00 / high byte 00 / both 00 (last two free key bytes solved with the bit-serial reference CRC). Oracle = inverse: "
     "same session key, per block the same kind and fields when a matching decryptor was supplied, else a pass-through block with the same tag and the "
     "bytes that are in the file; component content as C01 (encrypted ones on blob[:declared]). keygrid enumerates every key class x every block kind. "
+    "History: the file is written a second time with the same encryptor objects, and a third time after IN-PLACE edits of its block / encryptor attributes (update version, customer key, selector of a default-recipient ECC block): the text carries the blocks as they are at that write. "
     "Non-trivial = key/CRC in a zero-byte class, or >= 2 blocks, or a strict decryptor subset; distinct by case hash."
 )
 ASSUMPTIONS = [
     "customer key only at position 0 of the customer-key block (the only position whose slot is the placeholder); other positions are covered on the container in C08",
     "the raw bytes of unopened blocks are taken from the written file by the independent header parser",
 ]
-REQUIRED_CLASSES = ["key.ends00", "upd.crc.lo=00", "upd.crc.hi=00", "upd.crc=0000", "cust.crc.lo=00", "cust.crc.hi=00", "blocks>=2", "strict-subset", "ecc",
+REQUIRED_CLASSES = ["third-write-after-in-place-edit=version", "third-write-after-in-place-edit=customer_key", "third-write-after-in-place-edit=selector", "key.ends00", "upd.crc.lo=00", "upd.crc.hi=00", "upd.crc=0000", "cust.crc.lo=00", "cust.crc.hi=00", "blocks>=2", "strict-subset", "ecc",
                     "enc-component", "route=path", "ecc.edge-scalar", "decoy-decryptors", "unknown-tag-block", "public-only-encryptor-in-reader-list", "file>32KiB"]
 
 KEY_CLASSES = ["random", "ends00", "upd.lo", "upd.hi", "upd.both", "cust.lo", "cust.hi", "cust.both"]
@@ -150,6 +151,42 @@ def check(case, rec):
             raise Violation("second write with the same encryptor objects / re-read with the same decryptor objects failed: %s: %s" % (type(e).__name__, e))
         if g2.session_key != key or g3.session_key != key:
             raise Violation("second write/read with reused encryptor objects recovers a different session key")
+        # ... and the SAME file object, blocks and encryptor objects after IN-PLACE edits of their public attributes (update version, customer
+        # key of the software encryptor, selector of a default-recipient ECC block): the third write carries the blocks as they are NOW
+        blocks3 = [dict(b) for b in blocks]
+        objs = list(bec.auth_blocks.values())
+        edited = []
+        for i, (b, o) in enumerate(zip(blocks3, objs)):
+            if b["kind"] == "upd":
+                b["version"] = (b["version"] + 1 + b["code"][0] % 7) % 256
+                o.version = b["version"]
+                edited.append("version")
+            elif b["kind"] == "cust" and b.get("customer_key"):
+                w = next((e for e in writers if isinstance(e, sut.B2.SoftwareCustKeyEncryptor) and e.crypto_key == b["crypto_key"]), None)
+                if w is not None and w.customer_key:
+                    b["customer_key"] = bytes(x ^ 0x11 for x in b["customer_key"])
+                    w.customer_key = b["customer_key"]
+                    edited.append("customer_key")
+            elif b["kind"] == "ecc" and b.get("priv") is None and not case.get("decoys") and not case.get("public_only"):
+                b["sel"] = (b["sel"] + 1 + len(blocks)) % 4
+                o.key_selector = b["sel"]
+                edited.append("selector")
+        if edited:
+            for e_ in edited:
+                rec.cls("third-write-after-in-place-edit=" + e_)
+            try:
+                text3, src3 = sut.write_text(lambda t: bec.write_file(t, writers), "stream")
+                g4 = sut.Bec2File.read_file(src3(), [sut.mk_encryptor(blocks3[i], role="reader") for i in case["open"]])
+            except Exception as e:
+                raise Violation("write + read after in-place edits (%s) of the file's blocks / encryptors raised %s: %s" % (edited, type(e).__name__, e))
+            if g4.session_key != key:
+                raise Violation("after in-place edits (%s) the file written again gives another session key" % (edited,))
+            for i, (b, o) in enumerate(zip(blocks3, [sut.obs_authblock(ab) for ab in g4.auth_blocks.values()])):
+                if i in case["open"] or (b["kind"] == "ecc" and b.get("priv") is None):
+                    if b["kind"] == "upd" and i in case["open"] and (o.get("version"), o.get("code")) != (b["version"], b["code"]):
+                        raise Violation("update block edited in place to version %d, the file written afterwards carries %r" % (b["version"], o))
+                    if b["kind"] == "ecc" and o.get("sel", o.get("value", b"\xff")[:1] and o.get("value", b"\xff")[0]) != b["sel"]:
+                        raise Violation("ECC block edited in place to selector %d, the file written afterwards carries %r" % (b["sel"], {k: (v.hex() if isinstance(v, bytes) else v) for k, v in o.items()}))
     got_blocks = [sut.obs_authblock(ab) for ab in g.auth_blocks.values()]
     if len(got_blocks) != len(blocks):
         raise Violation("auth blocks: wrote %d read %d" % (len(blocks), len(got_blocks)))
